@@ -184,7 +184,7 @@ RULES.append(("C03.k", "must-pass-through: no path around the effects this prope
 
 def rule_commit(ctx):
     from . import mustpass
-    for g, floor in [('mailbox-signals', 12), ('sched-queue', 25), ('throw', 8), ('ports', 80), ('lockfree', 40)]:
+    for g, floor in [('mailbox-signals', 12), ('sched-queue', 25), ('throw', 8), ('ports', 80), ('lockfree', 25)]:
         mustpass.commit_group(ctx, g, floor)
 
 
